@@ -98,7 +98,8 @@ def crashAt (fs : FS) (evs : List Ev) (k : Nat) : FS := applyAll fs (evs.take k)
 
 structure Cfg where
   legacy : Bool := false                    -- write protocol of the pinned tree
-  dict : Bool := false                      -- storage "dict" (persisted at the end) instead of "file_array"
+  dict : Bool := false                      -- default storage "dict" (persisted at the end) instead of "file_array"
+  other : List String := []                 -- functions whose outputs use the *other* storage (`storage={"": …, out: …}`)
   failAt : Option Nat := none               -- the user call with this global index (0-based) raises
   deriving Repr, DecidableEq
 
@@ -148,6 +149,9 @@ def compare (legacy : Bool) (fs : FS) (inputs : List (String × Val)) : Out Unit
     | .ok _, .ok _ => ⟨if legacy then dumpAllEvs true inputs else [], .ok ()⟩
     | _, _ => ⟨[], .error .refused⟩
 
+/-- `RunInfo.storage_class(func.output_name)`: does this function's output live in a `DictArray`? -/
+def isDictF (cfg : Cfg) (f : MFunc) : Bool := cfg.dict != cfg.other.contains f.name
+
 /-- functions whose outputs live in storage arrays -/
 def isMapped (f : MFunc) : Bool :=
   match f.mapspec with
@@ -157,6 +161,10 @@ def isMapped (f : MFunc) : Bool :=
 def mappedOutputs (fsd : List MFunc) : List String :=
   ((generations fsd).flatten.filter isMapped).flatMap (·.outputs)
 
+/-- every storage array of the run with its kind (`true` = `DictArray`) -/
+def storePlan (cfg : Cfg) (fsd : List MFunc) : List (String × Bool) :=
+  ((generations fsd).flatten.filter isMapped).flatMap fun f => f.outputs.map fun o => (o, isDictF cfg f)
+
 /-- the persisted dict of one output: the values by linear index -/
 def dictCells : Val → List (Nat × Val)
   | .tup vs => (List.range vs.length).zip vs
@@ -164,22 +172,22 @@ def dictCells : Val → List (Nat × Val)
 
 /-- `RunInfo.init_store`: `FileArray.__init__` makes the array's folder; `DictArray.__init__` loads a persisted dict
     (repaired: when the file exists; pinned: when the folder exists).  Returns the in-memory dicts. -/
-def initStore (cfg : Cfg) (fs : FS) : List String → Out (List (String × List (Nat × Val)))
+def initStore (legacy : Bool) (fs : FS) : List (String × Bool) → Out (List (String × List (Nat × Val)))
   | [] => ⟨[], .ok []⟩
-  | o :: rest =>
-    if !cfg.dict then
-      let more := initStore cfg fs rest
+  | (o, d) :: rest =>
+    if !d then
+      let more := initStore legacy fs rest
       ⟨.mkdirp (.arr o) :: more.evs, more.res⟩
     else
-      let tryLoad : Bool := if cfg.legacy then fs.dirs (.arr o) else (fs.files (.dictArr o)).isSome
+      let tryLoad : Bool := if legacy then fs.dirs (.arr o) else (fs.files (.dictArr o)).isSome
       if tryLoad then
         match readFile fs (.dictArr o) with
         | .error e => ⟨[], .error e⟩
         | .ok v =>
-          let more := initStore cfg fs rest
+          let more := initStore legacy fs rest
           ⟨more.evs, more.res.map ((o, dictCells v) :: ·)⟩
       else
-        let more := initStore cfg fs rest
+        let more := initStore legacy fs rest
         ⟨more.evs, more.res.map ((o, []) :: ·)⟩
 
 /-- how one function sees the elements stored for its own outputs -/
@@ -210,8 +218,8 @@ structure CallRec where
   deriving Repr
 
 /-- the missing elements, in order (`_maybe_parallel_map` without an executor → `_run_iteration_and_process`): select the
-    arguments, call, and (file arrays) dump every output at once; `nc` is the global index of the next user call -/
-def runMissing (cfg : Cfg) (fsd : List MFunc) (env : Env) (f : MFunc) (ms : MSpec) (es : List Nat) :
+    arguments, call, and (file arrays, `d = false`) dump every output at once; `nc` is the global index of the next user call -/
+def runMissing (cfg : Cfg) (d : Bool) (fsd : List MFunc) (env : Env) (f : MFunc) (ms : MSpec) (es : List Nat) :
     List Nat → Nat → Out (List (Nat × Row))
   | [], _ => ⟨[], .ok []⟩
   | li :: rest, nc =>
@@ -220,8 +228,8 @@ def runMissing (cfg : Cfg) (fsd : List MFunc) (env : Env) (f : MFunc) (ms : MSpe
     | .ok args =>
       if cfg.failAt = some nc then ⟨[.call f.name li args], .error (.raised f.name)⟩ else
       let row : Row := f.outputs.map fun o => (o, outVal f args o)
-      let wr := if cfg.dict then [] else row.flatMap fun (ov : String × Val) => writeEvs cfg.legacy (.cell ov.1 li) ov.2
-      let more := runMissing cfg fsd env f ms es rest (nc + 1)
+      let wr := if d then [] else row.flatMap fun (ov : String × Val) => writeEvs cfg.legacy (.cell ov.1 li) ov.2
+      let more := runMissing cfg d fsd env f ms es rest (nc + 1)
       ⟨.call f.name li args :: wr ++ more.evs, more.res.map ((li, row) :: ·)⟩
 
 /-- the existing elements (`get_from_index` for every output) -/
@@ -253,13 +261,13 @@ def callsOf (evs : List Ev) : List CallRec :=
   evs.filterMap fun e => match e with | .call fn li args => some ⟨fn, li, args⟩ | _ => none
 
 /-- a function with MapSpec inputs (`_prepare_submit_map_spec`, `_maybe_parallel_map`, `_output_from_mapspec_task`) -/
-def stepMapped (cfg : Cfg) (fsd : List MFunc) (env : Env) (view : View) (nc : Nat) (f : MFunc) (ms : MSpec)
+def stepMapped (cfg : Cfg) (d : Bool) (fsd : List MFunc) (env : Env) (view : View) (nc : Nat) (f : MFunc) (ms : MSpec)
     (shape : List Nat) (mask : List Bool) : FOut :=
   let es := extOf mask shape
   let n := prod es
   let missing := (List.range n).filter (isMissing view f)
   let existing := (List.range n).filter fun li => !isMissing view f li
-  let m := runMissing cfg fsd env f ms es missing nc
+  let m := runMissing cfg d fsd env f ms es missing nc
   match m.res with
   | .error e => ⟨m.evs, [], missing.length, callsOf m.evs, .error e⟩
   | .ok computed =>
@@ -301,7 +309,7 @@ def stepFunc (cfg : Cfg) (fsd : List MFunc) (shapes : List (String × List Nat))
       match alookup shapes o, alookup masks o with
       | some sh, some mk =>
         if sh.length ≠ mk.length then ⟨[], [], 0, [], .error (.map (.value "shape and mask of different rank"))⟩
-        else stepMapped cfg fsd env (if cfg.dict then dictView mem else fileView fs) nc f ms sh mk
+        else stepMapped cfg (isDictF cfg f) fsd env (if isDictF cfg f then dictView mem else fileView fs) nc f ms sh mk
       | _, _ => ⟨[], [], 0, [], .error (.map (.key o))⟩
   | none => stepSingle cfg fsd env fs nc f
 
@@ -345,11 +353,11 @@ def runGensR (step : Env → FS → Nat → MFunc → FOut) : List (List MFunc) 
       ⟨evs ++ l.evs, g.calls ++ l.calls, l.res.map fun (more, envF) => (rs ++ more, envF)⟩
 
 /-- `_maybe_persist_memory`: every dict array is written once, at the very end -/
-def persistEvs (cfg : Cfg) (store : List (String × Slot)) (mapped : List String) : List Ev :=
-  if !cfg.dict then [] else
-  mapped.flatMap fun o =>
-    match alookup store o with
-    | some (.array _ _ cells) => .mkdirp (.arr o) :: writeEvs cfg.legacy (.dictArr o) (.tup (cells.map (·.2)))
+def persistEvs (legacy : Bool) (store : List (String × Slot)) (plan : List (String × Bool)) : List Ev :=
+  plan.flatMap fun (od : String × Bool) =>
+    if !od.2 then [] else
+    match alookup store od.1 with
+    | some (.array _ _ cells) => .mkdirp (.arr od.1) :: writeEvs legacy (.dictArr od.1) (.tup (cells.map (·.2)))
     | _ => []
 
 structure RunResult where
@@ -380,7 +388,7 @@ def runOn (cfg : Cfg) (fs : FS) (fsd : List MFunc) (inputs : List (String × Val
     | .ok () =>
       let e1 := c.evs ++ dumpAllEvs cfg.legacy inputs
       let fs1 := applyAll fs e1
-      let i := initStore cfg fs1 (mappedOutputs fsd)
+      let i := initStore cfg.legacy fs1 (storePlan cfg fsd)
       match i.res with
       | .error e => ⟨e1 ++ i.evs, [], .error e⟩
       | .ok mem =>
@@ -390,8 +398,21 @@ def runOn (cfg : Cfg) (fs : FS) (fsd : List MFunc) (inputs : List (String × Val
         match l.res with
         | .error e => ⟨e2 ++ l.evs, l.calls, .error e⟩
         | .ok (rs, envF) =>
-          ⟨e2 ++ l.evs ++ persistEvs cfg envF.store (mappedOutputs fsd), l.calls,
+          ⟨e2 ++ l.evs ++ persistEvs cfg.legacy envF.store (storePlan cfg fsd), l.calls,
            .ok { outputs := rs.flatMap (·.outputs), calls := l.calls }⟩
+
+/-- `_cleanup_run_folder` of `cleanup=True` (`map/_run_info.py`).  Repaired: the run folder is renamed to a unique trash name
+    next to it in one `os.replace` — for the run folder that is the single event `rmtree` — and the trash is removed afterwards
+    (those unlinks happen outside the run folder).  Pinned: `shutil.rmtree(run_folder)` unlinks the files one by one, in the
+    order `os.scandir` yields them — `order` (any order; directories are not part of what a resumed run of the repaired
+    protocol looks at). -/
+def cleanupEvs (legacy : Bool) (order : List Path) : List Ev :=
+  if legacy then order.map .unlink else [.rmtree]
+
+/-- `Pipeline.map(inputs, run_folder=F, cleanup=True)` started on the folder state `fs`: clean up, then run into the empty folder -/
+def runClean (cfg : Cfg) (order : List Path) (fsd : List MFunc) (inputs : List (String × Val)) (ui : List (String × List Nat)) : Run :=
+  let r := runOn cfg FS.empty fsd inputs ui
+  { r with evs := cleanupEvs cfg.legacy order ++ r.evs }
 
 /-- an uninterrupted run into an empty folder (`cleanup=True` on a folder that does not exist) -/
 def runFresh (cfg : Cfg) (fsd : List MFunc) (inputs : List (String × Val)) (ui : List (String × List Nat)) : Run :=
@@ -401,5 +422,9 @@ def runFresh (cfg : Cfg) (fsd : List MFunc) (inputs : List (String × Val)) (ui 
 def doneIn (fs : FS) (f : MFunc) (li : Nat) : Bool :=
   if isMapped f then f.outputs.all fun o => (fs.files (.cell o li)).isSome
   else f.outputs.all fun o => (fs.files (.single o)).isSome
+
+/-- the same for any storage: an element of a `DictArray` output is stored when the persisted dict of every output exists -/
+def doneInC (cfg : Cfg) (fs : FS) (f : MFunc) (li : Nat) : Bool :=
+  if isMapped f && isDictF cfg f then f.outputs.all fun o => (fs.files (.dictArr o)).isSome else doneIn fs f li
 
 end PF.ResumeFS
